@@ -780,6 +780,12 @@ func (fv *FnV) arith(st *State, op token.Token, a, b Val, ty types.Type, n ast.N
 	case token.SHL:
 		if k, ok := parseIntLit(b.T); ok && k.IsInt64() && k.Int64() >= 0 && k.Int64() < 128 {
 			t = fmt.Sprintf("(* %s %s)", a.T, pow2(int(k.Int64())).String())
+		} else if fv.provable(st, fmt.Sprintf("(and (<= 0 %s) (< %s 8))", b.T, b.T)) {
+			// a small variable shift amount (bit masks such as 1 << j): a case split over the eight possible amounts
+			t = fmt.Sprintf("(* %s 128)", a.T)
+			for k := 6; k >= 0; k-- {
+				t = fmt.Sprintf("(ite (= %s %d) (* %s %s) %s)", b.T, k, a.T, pow2(k).String(), t)
+			}
 		} else {
 			fv.unsupported(n, "shift by non-constant")
 			t = fv.fresh("shl", "Int")
@@ -853,7 +859,10 @@ func (fv *FnV) bitop(st *State, op token.Token, a, b Val, ty types.Type, n ast.N
 		bits = hi.BitLen()
 	}
 	if !bok {
-		// general case for small types: decompose both into bits
+		// general case for small types, or for operands that are provably small bit sets: decompose both into bits
+		if bits > 8 && fv.provable(st, fmt.Sprintf("(and (<= 0 %s) (< %s 256) (<= 0 %s) (< %s 256))", a.T, a.T, b.T, b.T)) {
+			bits = 8
+		}
 		if bits <= 8 {
 			at := fv.name("a", a.T, "Int")
 			bt := fv.name("b", b.T, "Int")
